@@ -51,7 +51,7 @@ pub(crate) fn format_docstring(docstring: String) -> String {
     // Dedent all lines
     let mut result = Vec::new();
     for (i, line) in lines.iter().enumerate() {
-        if i == 0 {
+        if i == 0 && first_line_follows_quotes {
             result.push(line.trim().to_string());
         } else if line.trim().is_empty() {
             result.push(String::new());
@@ -62,7 +62,14 @@ pub(crate) fn format_docstring(docstring: String) -> String {
                 Some(rest) if line.len() > min_indent => rest,
                 _ => line.trim_start(),
             };
-            result.push(dedented.to_string());
+            // The first kept line never carries trailing whitespace (it used to be trimmed
+            // on both sides); when the text starts below the opening quotes it is dedented
+            // like every other line so that its relative indentation survives.
+            if i == 0 {
+                result.push(dedented.trim_end().to_string());
+            } else {
+                result.push(dedented.to_string());
+            }
         }
     }
 
